@@ -70,12 +70,17 @@ def generate(rng, tier):
     for ty in ("vector", "matrix", "banded", "tridiagonal", "polynomial"):
         cases.append(Case("f64", "guard.clone_%s %s" % (ty, " ".join(str(n) for n in range(0, 7))), None,
                           meta={"clone": ty}, family="clone", nontrivial=True))
+    for ty in ("vector", "matrix", "banded", "polynomial"):
+        cases.append(Case("f64", "guard.own_%s %s" % (ty, " ".join(str(n) for n in range(0, 7))), None,
+                          meta={"own": ty}, family="owned-vs-borrowed", nontrivial=True))
     return cases
 
 def case_from_json(j):
     m = j["meta"]
     if "clone" in m:
         return Case("f64", j["line"], None, meta=m, family="clone")
+    if "own" in m:
+        return Case("f64", j["line"], None, meta=m, family="owned-vs-borrowed")
     ent = guardtable.BYKEY[m["key"]]
     return mk(ent, [tuple(t) for t in m["tuples"]], 0)
 
@@ -88,6 +93,11 @@ def oracle(case, items):
     if "clone" in m:
         bad = [k for k, it in enumerate(items) if it != ('i', 0)]
         return ("clone of a %s is not independent of its original (size index %s)" % (m["clone"], bad)) if bad else None
+    if "own" in m:
+        for k, it in enumerate(items):
+            if it != ('i', 0):
+                return "%s of size index %d: %s" % (m["own"], k, CODE.get(it[1], "unexpected answer %r" % (it,)) if it[0] == 'i' else "unexpected answer %r" % (it,))
+        return None
     ent = guardtable.BYKEY[m["key"]]
     if len(items) != len(m["tuples"]):
         return "entry %s: executor answered %d of %d tuples (%r)" % (m["key"], len(items), len(m["tuples"]), items[-2:])
